@@ -16,6 +16,9 @@ CLAIMED = {
  'C18': dict(text='Bounded symbolic model checking of the real Metadata::apply: every command sequence up to length 3-4 (quick) / 4-6 (thorough) over {create, rollover, upsert, undecodable bytes} x topics {a,b} x leaders 1..3 with sealed counts as 64-bit solver variables; after every step z3 decides the four invariants (segments 1..current with one leader each, open segment leader = topic leader, sealed (count, leader) pairs immutable, cumulative offset = sum of sealed counts) and the no-panic obligation (release semantics; the debug-profile overflow obligation is explored separately).',
              note='Trusted: AST dump, interpreter, HashMap/RwLock models, bincode modelled as a total decode function (real bincode cannot be built offline). Replay runs the real metadata.rs compiled against two scaffolding shims (octopii trait, JSON-backed bincode). Longer sequences are outside the claim.',
              technique='source-level symbolic execution (z3 bit-vectors), native replay through a shim harness', ref='7/C18'),
+ 'C24': dict(text='Bounded symbolic model checking of the real client.rs (handle_connection, handle_command, send_response): every byte stream of length 0..12 (quick) / 0..16 (thorough) with all bytes symbolic, plus shaped REGISTER/PUT/GET exchanges with symbolic frame bodies; z3 decides that every server length-prefix read is a client frame boundary, that responses correspond one-to-one to frames, and that a PUT payload reaches the controller and comes back from GET byte-identical (ASCII bodies).',
+             note='Trusted: AST dump, interpreter, models of read_exact/write_all, from_utf8 (identity on ASCII, nondeterministic otherwise), trim_end, splitn, format!; the controller is a stub. Replay runs the real client.rs compiled against an in-memory tokio shim and the same controller stub. Longer streams and non-ASCII payload content are outside the claim.',
+             technique='source-level symbolic execution of the async handlers (z3 bit-vectors for bytes, Int code points for text), native replay through a shim harness', ref='7/C24'),
  'C25': dict(text='Bounded symbolic model checking of the real wal_key/parse_wal_key source: for every topic length 0..12 (quick) / 0..40 (thorough) of arbitrary Unicode scalar values and every u64 segment, z3 shows the round trip returns the same pair; every counterexample is replayed through the real functions before it is reported.',
              note='Trusted: the syn->JSON AST dump, the interpreter, four std string models (format!, rsplitn, strip_prefix, parse::<u64>) which are differential-tested against the real functions on every run; strings longer than the bound are outside the claim.',
              technique='source-level symbolic execution (rs2json AST + z3, strings as code-point vectors, digits as Int variables), native replay gate', ref='7/C25'),
